@@ -16,18 +16,19 @@ import (
 )
 
 type PropSpec struct {
-	ID        string   `json:"id"`
-	Units     []string `json:"units"`      // unit names or prefixes ending in *
-	Only      []string `json:"only"`       // optional: obligation-name regexps that count for this property (default all)
-	Exclude   []string `json:"exclude"`    // obligation-name regexps that belong to another property
-	Lemmas    []string `json:"lemmas"`     // spec/lemmas/<name>.smt2
-	Scans     []string `json:"scans"`      // named syntactic side-condition checks
-	Replay    string   `json:"replay"`     // replay template family
-	Trusted   []string `json:"trusted"`    // trusted base entries
-	Assume    []string `json:"assumptions"`
-	MinObls   int      `json:"min_obligations"`
-	Bounded   []string `json:"bounded"` // bounded stand-ins (thorough tier)
-	DesignRef string   `json:"design_ref"`
+	ID            string   `json:"id"`
+	Units         []string `json:"units"`          // unit names or prefixes ending in *
+	Only          []string `json:"only"`           // optional: obligation-name regexps that count for this property (default all)
+	Exclude       []string `json:"exclude"`        // obligation-name regexps that belong to another property
+	Lemmas        []string `json:"lemmas"`         // spec/lemmas/<name>.smt2
+	Scans         []string `json:"scans"`          // named syntactic side-condition checks
+	Replay        string   `json:"replay"`         // replay template family
+	AlwaysBounded []string `json:"always_bounded"` // replay families run as bounded checks on every tier
+	Trusted       []string `json:"trusted"`        // trusted base entries
+	Assume        []string `json:"assumptions"`
+	MinObls       int      `json:"min_obligations"`
+	Bounded       []string `json:"bounded"` // bounded stand-ins (thorough tier)
+	DesignRef     string   `json:"design_ref"`
 }
 
 type KnownFinding struct {
@@ -373,6 +374,23 @@ func (en *Engine) checkProperty(id, tier, verif, workdir string, t0 time.Time) i
 				name := "bounded-stand-in[" + fam + "]"
 				path := en.writeReplay(en.outDir, id, name, []Failure{{Name: name, Base: name, Verdict: "failing input found by the bounded replay harness", Solver: "go test", Output: strings.Join(undecided, "\n"), Kind: "bounded"}}, fam, outcomes[fam])
 				fmt.Printf("VIOLATION property=%s replay=%s obligation=%s (contract obligations undecided; concrete failing input from the bounded stand-in)\n", id, path, name)
+			}
+		}
+	}
+	// bounded checks that run on every tier (propmap "always_bounded"): parts of the property no contract within reach
+	// expresses (C15: byte identity across invocations of the whole compiler); labelled bounded, never counted as proof.
+	if violations == 0 {
+		for _, fam := range ps.AlwaysBounded {
+			if _, done := outcomes[fam]; !done {
+				outcomes[fam] = en.runReplayFamily(fam, id, verif)
+			}
+			boundedRuns = append(boundedRuns, "bounded check "+fam+": "+trunc(outcomes[fam], 300))
+			if strings.HasPrefix(outcomes[fam], "REPRODUCED") {
+				violations++
+				exit = 1
+				name := "bounded-check[" + fam + "]"
+				path := en.writeReplay(en.outDir, id, name, []Failure{{Name: name, Base: name, Verdict: "the bounded harness found a concrete failing input on the real code", Solver: "harness", Output: outcomes[fam], Kind: "bounded"}}, fam, outcomes[fam])
+				fmt.Printf("VIOLATION property=%s replay=%s obligation=%s\n", id, path, name)
 			}
 		}
 	}
